@@ -575,7 +575,12 @@ def check_C19(sc, v, tier, seed, replay):
     for si, s in enumerate(shapes):
         counts = dict(zip(("reg", "pdu", "svc", "rel", "dereg"), s))
         reads, ignored, ndl = _fault_points(counts)
-        pts = [("close", a) for a in range(ndl)] + [("garbage", a) for a in range(reads) if a not in ignored]
+        # the peer closes instead of sending message a: for a < reads the emulator's read number a meets the end of the association.
+        # Indices reads..ndl-1 are messages the emulator never reads (every PDU session release leaves its release command unread and
+        # shifts the later reads by one, so the last messages of the conversation are still queued when the emulator finishes): a close
+        # there races with the emulator's normal termination and is not observable by it - not a fault point (a multi-seed sweep met
+        # exit status 0 there once; that alarm was the check's, not the emulator's)
+        pts = [("close", a) for a in range(reads)] + [("garbage", a) for a in range(reads) if a not in ignored]
         if tier == "quick":
             pass
         elif si > 0:
